@@ -9,7 +9,8 @@ for d in sorted(os.listdir('/verif/seeded')):
     c = f'{p}/confirmation.json'
     if os.path.exists(c) and json.load(open(c)).get('confirmed'):
         continue
-    wt = f'/tmp/mut/{d.split("-")[0]}'
+    prop, rnd = d.split("-")
+    wt = f'/tmp/mut/{prop}' + ('' if rnd == 'a' else rnd)
     if not os.path.isdir(wt):
         print("no worktree for", d); continue
     if d in DEMO:
